@@ -137,4 +137,70 @@ theorem QInv.live_zero_of_allClosed {w : World} (h : QInv w) (hc : allClosed w) 
   rw [this] at hle
   simpa using hle
 
+
+/-- `sessionOpen` as a computation (for concrete witnesses). -/
+def sessionOpenB (w : World) (s : Nat) : Bool :=
+  match w.sessions[s]? with
+  | some ss => !ss.closed && (match w.facs[ss.fac]? with | some fac => !fac.closed | none => false)
+  | none => false
+
+theorem sessionOpen_iff (w : World) (s : Nat) : sessionOpen w s ↔ sessionOpenB w s = true := by
+  unfold sessionOpen sessionOpenB
+  constructor
+  · rintro ⟨ss, h1, h2, fac, h3, h4⟩
+    simp [h1, h2, h3, h4]
+  · intro h
+    cases h1 : w.sessions[s]? with
+    | none => simp [h1] at h
+    | some ss =>
+      simp only [h1, Bool.and_eq_true, Bool.not_eq_true'] at h
+      cases h3 : w.facs[ss.fac]? with
+      | none => simp [h3] at h
+      | some fac =>
+        simp only [h3, Bool.not_eq_true'] at h
+        exact ⟨ss, rfl, h.1, fac, h3, h.2⟩
+
+
+/-- `opOk` / `validFrom` as computations (for concrete witnesses). -/
+def opOkB (w : World) : Op → Bool
+  | .getSession f _ _ _ => (w.facs[f]?).isSome
+  | .encrypt s _ _ => sessionOpenB w s
+  | .decrypt s _ _ => sessionOpenB w s
+  | .closeSession s => match w.sessions[s]? with | some ss => !ss.closed | none => false
+  | .closeFactory f => match w.facs[f]? with | some fac => !fac.closed | none => false
+  | _ => true
+
+theorem opOk_iff (w : World) (op : Op) : opOk w op ↔ opOkB w op = true := by
+  cases op with
+  | newFactory p a b c d => simp [opOk, opOkB]
+  | getSession f part c d =>
+    simp only [opOk, opOkB]
+    cases hf : w.facs[f]? with
+    | none => simp
+    | some fac => simp
+  | encrypt s p fl => simp only [opOk, opOkB, sessionOpen_iff]
+  | decrypt s d fl => simp only [opOk, opOkB, sessionOpen_iff]
+  | closeSession s =>
+    simp only [opOk, opOkB]
+    cases hs : w.sessions[s]? with
+    | none => simp
+    | some ss => simp
+  | closeFactory f =>
+    simp only [opOk, opOkB]
+    cases hs : w.facs[f]? with
+    | none => simp
+    | some fac => simp
+  | advance d => simp [opOk, opOkB]
+  | revoke m => simp [opOk, opOkB]
+  | corruptRow m dp => simp [opOk, opOkB]
+
+def validB (w : World) : List Op → Bool
+  | [] => true
+  | op :: rest => opOkB w op && validB (applyOp w op).2 rest
+
+theorem validFrom_iff (w : World) (ops : List Op) : validFrom w ops ↔ validB w ops = true := by
+  induction ops generalizing w with
+  | nil => simp [validFrom, validB]
+  | cons op rest ih => simp [validFrom, validB, opOk_iff, ih]
+
 end AsherahVerif.Env
